@@ -376,21 +376,23 @@ Step(c) ==
     /\ UNCHANGED cfg
 
 Of(op) == {c \in Calls : c.op = op}
-New                == \E c \in Of("New") : Step(c)
-CreateArchiveDir   == \E c \in Of("CreateArchiveDir") : Step(c)
-GetFullArchivePath == \E c \in Of("GetFullArchivePath") : Step(c)
-CopyFile           == \E c \in Of("CopyFile") : Step(c)
-CopyDir            == \E c \in Of("CopyDir") : Step(c)
-AddMetadata        == \E c \in Of("AddMetadata") : Step(c)
-CreateTarFile      == \E c \in Of("CreateTarFile") : Step(c)
-DeleteTmpDir       == \E c \in Of("DeleteTmpDir") : Step(c)
-DeleteArchiveDir   == \E c \in Of("DeleteArchiveDir") : Step(c)
-CleanupTmp         == \E c \in Of("CleanupTmp") : Step(c)
-ExitProcess        == \E c \in Of("Exit") : Step(c)
-CleanupPrevious    == \E c \in Of("CleanupPrevious") : Step(c)
-StoringArchive     == \E c \in Of("StoringArchive") : Step(c)
-ToolBreak          == \E c \in Of("ToolBreak") : Step(c)
-ToolFix            == \E c \in Of("ToolFix") : Step(c)
+(* (one named action per method; the first conjunct only gives TLC's coverage *)
+(* report a name per method)                                                 *)
+New                == \E c \in Of("New") : c.op = "New" /\ Step(c)
+CreateArchiveDir   == \E c \in Of("CreateArchiveDir") : c.op = "CreateArchiveDir" /\ Step(c)
+GetFullArchivePath == \E c \in Of("GetFullArchivePath") : c.op = "GetFullArchivePath" /\ Step(c)
+CopyFile           == \E c \in Of("CopyFile") : c.op = "CopyFile" /\ Step(c)
+CopyDir            == \E c \in Of("CopyDir") : c.op = "CopyDir" /\ Step(c)
+AddMetadata        == \E c \in Of("AddMetadata") : c.op = "AddMetadata" /\ Step(c)
+CreateTarFile      == \E c \in Of("CreateTarFile") : c.op = "CreateTarFile" /\ Step(c)
+DeleteTmpDir       == \E c \in Of("DeleteTmpDir") : c.op = "DeleteTmpDir" /\ Step(c)
+DeleteArchiveDir   == \E c \in Of("DeleteArchiveDir") : c.op = "DeleteArchiveDir" /\ Step(c)
+CleanupTmp         == \E c \in Of("CleanupTmp") : c.op = "CleanupTmp" /\ Step(c)
+ExitProcess        == \E c \in Of("Exit") : c.op = "Exit" /\ Step(c)
+CleanupPrevious    == \E c \in Of("CleanupPrevious") : c.op = "CleanupPrevious" /\ Step(c)
+StoringArchive     == \E c \in Of("StoringArchive") : c.op = "StoringArchive" /\ Step(c)
+ToolBreak          == \E c \in Of("ToolBreak") : c.op = "ToolBreak" /\ Step(c)
+ToolFix            == \E c \in Of("ToolFix") : c.op = "ToolFix" /\ Step(c)
 
 Next == \/ New \/ CreateArchiveDir \/ GetFullArchivePath \/ CopyFile \/ CopyDir \/ AddMetadata
         \/ CreateTarFile \/ DeleteTmpDir \/ DeleteArchiveDir \/ CleanupTmp \/ ExitProcess
